@@ -1,5 +1,133 @@
-"""Armed-check of the thorough tier (mutant / benign / control corpora) - filled in later."""
+"""Armed-check of the thorough tier: the checker is tested both ways on source *overlays* (nothing is
+written to disk, nothing is left under /tmp).
+
+* mutants  - single edits of /repo's current source, each tied to the property (and rule) that must
+             report it; a mutant that is not reported means the checker lost its teeth.
+* benign   - behaviour-preserving rewrites of the same sites; a benign variant that is reported means the
+             rule keys on text, not on behaviour.
+* controls - tiny non-repo files fed to rules whose expected count on the clean tree is zero.
+
+Failures are *analysis errors* (exit 2), never VIOLATION: they say the checker is wrong, not the
+repository.  An edit whose anchor text no longer occurs exactly once in the current source is reported as
+'stale' and skipped (the tree under analysis may legitimately differ from the one the corpus was written
+against); if more than half of a property's mutants are stale the run is an analysis error.
+"""
+from __future__ import annotations
+
+import concurrent.futures as cf
+import importlib
+import os
+from typing import Dict, List, Optional, Tuple
+
+ROOT = os.environ.get("KDVERIF_REPO", "/repo")
 
 
-def run_for(prop, rep):
-    return 0
+def _apply(edits: List[Tuple[str, str, str]], root: str) -> Optional[Dict[str, str]]:
+    overlays: Dict[str, str] = {}
+    for rel, old, new in edits:
+        src = overlays.get(rel)
+        if src is None:
+            try:
+                with open(os.path.join(root, rel), encoding="utf-8") as f:
+                    src = f.read()
+            except OSError:
+                return None
+        if src.count(old) != 1:
+            return None
+        overlays[rel] = src.replace(old, new)
+    return overlays
+
+
+def _run_variant(args):
+    prop, kind, name, edits, want_rule = args
+    from .__main__ import run_check
+
+    overlays = _apply(edits, ROOT)
+    if overlays is None:
+        return (kind, name, "stale", "")
+    import ast as _ast
+    for rel, src in overlays.items():
+        try:
+            _ast.parse(src)
+        except SyntaxError as e:
+            return (kind, name, "broken-variant", f"variant does not parse: {e}")
+    rc, rep = run_check(prop, "quick", overlays=overlays, write=False, quiet=True)
+    fresh = getattr(rep, "fresh", [])
+    if rep.errors:
+        return (kind, name, "error", "; ".join(rep.errors)[:300])
+    if kind == "mutant":
+        if not fresh:
+            return (kind, name, "missed", "no violation reported")
+        if want_rule and not any(o.rule.startswith(want_rule) for o in fresh):
+            return (kind, name, "wrong-rule", "reported by " + ",".join(sorted({o.rule for o in fresh})) +
+                    f" instead of {want_rule}")
+        return (kind, name, "caught", ",".join(sorted({o.rule for o in fresh})))
+    else:
+        if fresh:
+            return (kind, name, "flagged", "; ".join(f"{o.rule}:{o.construct}" for o in fresh)[:300])
+        return (kind, name, "silent", "")
+
+
+def corpus(prop: str):
+    try:
+        mod = importlib.import_module(f"kdverif.corpus.{prop.lower()}")
+    except ModuleNotFoundError:
+        return [], []
+    return getattr(mod, "MUTANTS", []), getattr(mod, "BENIGN", [])
+
+
+def run_for(prop: str, rep=None, verbose=True) -> int:
+    mutants, benign = corpus(prop)
+    jobs = []
+    for m in mutants:
+        name, edits, want = m[0], m[1], (m[2] if len(m) > 2 else None)
+        jobs.append((prop, "mutant", name, edits, want))
+    for b in benign:
+        jobs.append((prop, "benign", b[0], b[1], None))
+    if not jobs:
+        if verbose:
+            print(f"[{prop} selftest] no corpus")
+        return 0
+    workers = min(16, len(jobs), os.cpu_count() or 4)
+    with cf.ProcessPoolExecutor(max_workers=workers) as ex:
+        results = list(ex.map(_run_variant, jobs))
+    bad = [r for r in results if r[2] in ("missed", "wrong-rule", "flagged", "error", "broken-variant")]
+    stale = [r for r in results if r[2] == "stale"]
+    n_m = sum(r[0] == "mutant" for r in results)
+    n_b = sum(r[0] == "benign" for r in results)
+    caught = sum(r[2] == "caught" for r in results)
+    silent = sum(r[2] == "silent" for r in results)
+    if verbose:
+        print(f"[{prop} selftest] mutants caught {caught}/{n_m}, benign silent {silent}/{n_b}, stale {len(stale)}")
+        for r in bad:
+            print(f"ANALYSIS-ERROR property={prop} selftest {r[0]} '{r[1]}': {r[2]} {r[3]}")
+        for r in stale:
+            print(f"  stale {r[0]} '{r[1]}' (anchor text not found exactly once in the current source)")
+    stale_m = sum(r[0] == "mutant" for r in stale)
+    if n_m and stale_m * 2 > n_m:
+        print(f"ANALYSIS-ERROR property={prop} selftest: {stale_m}/{n_m} mutants stale")
+        return 2
+    _augment_evidence(prop, results)
+    return 2 if bad else 0
+
+
+def _augment_evidence(prop, results):
+    import json
+
+    from .core import EVIDENCE_DIR
+    path = os.path.join(EVIDENCE_DIR, f"{prop}.json")
+    try:
+        with open(path) as f:
+            ev = json.load(f)
+    except OSError:
+        return
+    ev["coverage"]["armed_check"] = {
+        "mutants": sum(r[0] == "mutant" for r in results),
+        "mutants_caught": sum(r[2] == "caught" for r in results),
+        "benign": sum(r[0] == "benign" for r in results),
+        "benign_silent": sum(r[2] == "silent" for r in results),
+        "stale": sum(r[2] == "stale" for r in results),
+        "results": [{"kind": r[0], "name": r[1], "outcome": r[2], "by": r[3]} for r in results],
+    }
+    with open(path, "w") as f:
+        json.dump(ev, f, indent=1, default=str)
